@@ -195,6 +195,33 @@ impl Property for C03 {
                 });
             }
         }
+        // packets beyond 64 KiB arriving in many reads, the last of which carries -1, 0, 1, 2 or 3
+        // bytes of the packet that follows
+        let kibs2: Vec<u16> = if tier == Tier::Thorough { vec![65, 70, 98, 300] } else { vec![70, 98] };
+        for kib in kibs2 {
+            for d in [-1i8, 0, 1, 2, 3] {
+                for every in [30_000u32, 4_099, 65_536] {
+                    big.push(Case {
+                        subs: 1,
+                        pings: 1,
+                        pub1: 0,
+                        pub2: 0,
+                        items: vec![
+                            Inbound::Ack { sel: 0, deco: short },
+                            Inbound::BigPublish { kib },
+                            Inbound::Publish { qos: 1, dup: false, retain: false, pid: 0, target: Target::Sub(0), payload_len: 3, props: 0 },
+                            Inbound::BigPublish { kib: 66 },
+                            Inbound::Ack { sel: 0, deco: short },
+                        ],
+                        plan: ChunkPlan::Mixed { deltas: vec![d], every },
+                        settle_between: d % 2 == 0,
+                        read_cap: 0,
+                        read_yield: false,
+                        eof_after: true,
+                    });
+                }
+            }
+        }
         Box::new(a.chain(b).chain(big).enumerate().filter(move |(i, _)| i % workers == worker).map(|(_, c)| c))
     }
 
@@ -235,6 +262,7 @@ impl Property for C03 {
             ChunkPlan::NearBounds(_) => "plan-near-packet-boundaries",
             ChunkPlan::NearBuf(_) => "plan-near-512-multiples",
             ChunkPlan::Mask(_) => "plan-exhaustive-mask",
+            ChunkPlan::Mixed { .. } => "plan-long-packet-with-spill",
         });
         if let Some(f) = failure_for(&out, &["C03/"]) {
             o.fail = Some(f);
